@@ -56,6 +56,18 @@ checks = {
    technique="exhaustive enumeration of messages (13 shapes incl. ARCOUNT 254..257, 60 KiB and exactly 65535 octets; Compress on/off) × 6 algorithms × validity-window edges, and of faults (every single-bit flip of message and SIG RDATA for messages ≤1-8 KiB and a stated reduced family above, every truncation ≥12, section-count rewrites, wrong key / signer / algorithm) on the real SIG.Sign/SIG.Verify against an independent RFC 2931 model verified with crypto/*",
    text="Sign succeeds for every message and its output equals Pack(m) ‖ one SIG RR with ARCOUNT+1 whose signature the reference verifies; Verify accepts the untampered buffer exactly inside the window (stable-second protocol) and rejects every enumerated fault without panicking.",
    note="Trusted: harness/ref/sig0 (own wire walker, RFC 2931 signed data, RFC 3110/6605/8080 key decoding), crypto/*. The 11 octets of the SIG RR's own header are excluded from 'altered' (not covered by RFC 2931)."),
+ "C02": dict(cat="exploration", eng="E1+E3", ref="§5 C02",
+   technique="bounded-exhaustive enumeration of hostile wire input: all byte strings ≤3 octets into the name decoder, all RDATA strings ≤2 octets (+ boundary triples) behind a valid header for every registered type, all payloads ≤2 octets for every EDNS0 option / SVCB key, every truncation and every single-octet substitution (all 256 values) of ≈1400 structured seed messages, all 9^4 pointer graphs over 4 name slots, pointer chains 1..140, names of 250..260 octets through 0..3 pointers, lying header counts {0,1,2,3,255,65535}^4 and 64 KiB inputs; each run through Msg.Unpack/UnpackRR/UnpackDomainName with panic capture, a per-case hang watchdog and a per-decode allocation bound, and accepted results through String/Len/Copy/Pack",
+   text="No panic, no hang, allocation ≤ 4096·len+64 KiB per decode, accepted names within 63/255, records within the input, and no panic / Len-underestimate when accepted results are printed, measured, copied and re-packed — for every input in the enumerated spaces.",
+   note="Trusted: runtime allocation counters (screen) confirmed by ReadMemStats; harness/ref/wire only to build seeds and locate name fields. NOT covered: arbitrary inputs beyond the enumerated neighbourhoods (the property's 'all byte strings ≤ 65535')."),
+ "C06": dict(cat="exploration", eng="E1", ref="§5 C06",
+   technique="bounded-exhaustive enumeration of abstract zone programs (≤2 lines over a 183-line alphabet, ≤3-5 lines over a 25-line alphabet; $ORIGIN/$TTL/$GENERATE/$INCLUDE) × parser configurations (origin, default TTL, include off / MapFS / on-disk) × lexical renderings (every single deviation of 10 kinds, ≤2-3 deviations on a sub-space), TTL spellings, $GENERATE ranges × templates, include chains of depth 1..8 — parsed by the real ZoneParser and compared with an independent interpreter of RFC 1035 §5 / RFC 2308 §4",
+   text="For every program/configuration/rendering the records returned by ZoneParser.Next equal the interpreter's denotation (owner labels, class, TTL, type, typed RDATA), all renderings of a program agree, and invalid programs produce an error and no further record.",
+   note="Trusted: harness/ref/zone (interpreter + renderer). Choices the statement leaves open (TTL inherited by a $GENERATE body, $TTL leaking out of an include, FS used by an include inside $GENERATE) are left unspecified by the model."),
+ "C07": dict(cat="exploration", eng="E1", ref="§5 C07",
+   technique="bounded-exhaustive enumeration of hostile zone text: all strings ≤4-5 tokens over a 22-token alphabet × 4 prefixes × origins × include settings (off / counting FS / self-including FS / 8-deep chain / on-disk sentinel), token and comment lengths around multiples of the lexer's buffer size inside and outside parentheses, unbalanced parentheses at every token boundary, nested $GENERATE spellings and range bounds — run through the real ZoneParser/NewRR with panic capture, watchdog, allocation bound, Open-call counting",
+   text="Parsing terminates without panic within the allocation bound, errors are sticky and positioned (line ≥ 1), no file is opened unless includes are allowed, include nesting stops at the depth limit, nested $GENERATE is rejected — on every enumerated input.",
+   note="Trusted: the counting fs.FS and on-disk sentinel; runtime allocation counters. Arbitrary byte strings beyond the token alphabet are not covered."),
 }
 na_reason = "check not built yet in this session (planned in DESIGN.md §5); not claimed until it runs"
 m = {
